@@ -59,9 +59,9 @@ func TestVerif_C02(t *testing.T) {
 			}
 		}
 		t.Repeat(map[string]func(*rapid.T){
-			"batch": func(t *rapid.T) { g.t = t; g.applyBatch(g.genBatchOp()); wrote() },
+			"batch":         func(t *rapid.T) { g.t = t; g.applyBatch(g.genBatchOp()); wrote() },
 			"rejectedBatch": func(t *rapid.T) { g.rejectedBatchAction()(t); wrote() },
-			"txn":   func(t *rapid.T) { g.t = t; g.applyTxn(g.genTxnOp()); wrote() },
+			"txn":           func(t *rapid.T) { g.t = t; g.applyTxn(g.genTxnOp()); wrote() },
 			"readerStep": func(t *rapid.T) {
 				g.t = t
 				i := rapid.IntRange(0, len(curs)-1).Draw(t, "cursor")
